@@ -144,6 +144,20 @@ def check(run: Run) -> None:
     from .c04 import check_comprehension_shadow
 
     check_comprehension_shadow(run, ctx, m, cls, "C05.R6")
+    # .. and, like the lambdas of R2e, they can capture: a free name of a substituted argument that is spelled like a loop
+    # variable refers to the loop variable afterwards unless the loop variable is renamed while substitutions are pending
+    seen_h = set()
+    for k_ in ("ListComp", "SetComp", "GeneratorExp", "DictComp"):
+        h_ = cls.methods.get(f"visit_{k_}")
+        if h_ is None and f"visit_{k_}" in cls.class_assigns and isinstance(cls.class_assigns[f"visit_{k_}"], ast.Name):
+            h_ = cls.methods.get(cls.class_assigns[f"visit_{k_}"].id)
+        if h_ is None or h_.qual in seen_h:
+            continue
+        seen_h.add(h_.qual)
+        from ..lib import unit as _unit
+
+        renames = any(isinstance(c.func, ast.Name) and c.func.id in ("arg_name", "make_args_unique") for g_ in _unit(m, h_) for c in calls_in(g_))
+        run.check(renames, "C05.R2e", h_, h_.node, "loop variables are renamed (or arguments proved closed) before substituting underneath them", f"{h_.name} keeps the comprehension's own loop-variable names while substitutions are pending: a free name of a substituted argument that equals a loop variable of the helper's comprehension is captured by it", "alpha-rename the loop variables of comprehensions in inlined helpers", key="binder kept while substitutions are pending", construct=f"{h_.module.name}:{cls.name}.<comprehension handler>")
 
     # ---------------- R8: the helper's body is recovered from source by the same scan as the operator's own lambda
     run.rule("C05.R8", "the source of an inlined helper is recovered under the gates of C03 (rule set of C03 re-evaluated): a neighbouring lambda must never be inlined in its place")
